@@ -340,8 +340,94 @@ def run_fpm(case, seed, R):
         R.expect(ok, 'to_fpm_and_back_backprop:return_more', 'return_more=True does not return a 3-tuple')
         if ok:
             R.expect_equal(more[0], one, 'to_fpm_and_back_backprop:return_more', 'first element with return_more=True differs from the plain return')
+            fpm_more_check(R, case, seed, g, more, n, M, wvl, efl, dx, fdx, sh, shift, fpm, feats, what)
     R.nontrivial(True)
     R.outcome('fpm:' + feats)
+
+
+def fpm_more_check(R, case, seed, g, more, n, M, wvl, efl, dx, fdx, sh, shift, fpm, feats, what):
+    """The AUXILIARY returns of the companion.  forward (return_more): A = F(a) ; B = A * m ; c = U(B)  ->  (c, A, B);
+    companion (return_more): Bbar = U^H cbar ; Abar = conj(m) Bbar ; abar = F^H Abar  ->  (abar, Bbar, Abar).
+    Each element is the gradient with respect to its forward quantity:
+      (i)   <cbar, U(dB)> = <Bbar, dB>        U = the return trip of the forward (unfocus_fixed_sampling displaced by the same number of focal samples)
+      (ii)  Abar = conj(m) * Bbar on every sample (exact adjoint of the diagonal step B = A * m; with (i) this is <cbar, U(dA * m)> = <Abar, dA>)
+      (iii) mask gradient mbar = Bbar * conj(A), A taken from the forward's own return_more: <cbar, to_fpm_and_back(a, fpm=dm)> = <mbar, dm>
+            (the forward is linear in the mask) -- ties (i) to to_fpm_and_back itself
+      (iv)  the Wavefront method returns the same three arrays
+      (v)   case['full']: (i) and (ii) entry-wise on the full bases (operator of U and of U(. * m) against the operators cbar -> Bbar, cbar -> Abar)."""
+    sig = 'to_fpm_and_back_backprop:return_more:'
+    eps = np.finfo(float).eps
+    try:
+        Bbar, Abar = np.asarray(more[1]), np.asarray(more[2])
+        ok = Bbar.shape == tuple(M) and Abar.shape == tuple(M) and bool(np.all(np.isfinite(Bbar))) and bool(np.all(np.isfinite(Abar)))
+    except Exception as e:   # noqa
+        R.violation(sig + 'output', f'{what}: uncomparable auxiliary returns: {type(e).__name__}: {e}')
+        return
+    if not ok:
+        R.violation(sig + 'output', f'{what}: auxiliary returns have shapes {Bbar.shape}, {Abar.shape} (mask {tuple(M)}) or non-finite entries')
+        return
+    shift_back = (sh[0] * dx, sh[1] * dx)      # the same number of focal samples, in units of the pupil spacing
+    U = lambda B: propagation.unfocus_fixed_sampling(B, fdx, efl, wvl, dx, n, shift=shift_back, method='mdft')   # noqa
+    gn = float(np.linalg.norm(g))
+    # (i)
+    dB = dense(M, seed, 61)
+    uB = R.call(propagation.unfocus_fixed_sampling, dB.copy(), fdx, efl, wvl, dx, n, shift=shift_back, sig=sig + 'forward:exception', hygiene=False)
+    if uB is not FAILED:
+        try:
+            uB = np.asarray(uB)
+            okB = uB.shape == tuple(n)
+            lhs, rhs = (rdot(g, uB), rdot(Bbar, dB)) if okB else (0.0, 0.0)
+            un = float(np.linalg.norm(uB)) if okB else 0.0
+        except Exception as e:   # noqa
+            R.violation(sig + 'forward', f'{what}: uncomparable return trip: {type(e).__name__}: {e}')
+            okB = None
+        if okB:
+            R.expect(abs(lhs - rhs) <= K_TOL * eps * max(1.0, gn * max(un, float(np.linalg.norm(dB)))), sig + 'Ebbar:' + feats,
+                     f'{what}: second return (gradient w.r.t. the field AFTER the mask): <cbar, U(dB)> = {lhs:.12g} but <Ebbar, dB> = {rhs:.12g}')
+        elif okB is False:
+            R.violation(sig + 'forward', f'{what}: return trip gives shape {uB.shape}, pupil is {tuple(n)}')
+    # (ii)
+    want = np.conj(fpm) * Bbar
+    R.expect_close(Abar, want, K_TOL * eps * max(1.0, float(np.max(np.abs(want)))), sig + 'intermediate:' + feats,
+                   f'{what}: third return (gradient w.r.t. the field AT the mask) is not conj(mask) * second return (gradient w.r.t. the field after the mask)')
+    # (iii)
+    a = dense(n, seed, 63)
+    dm = dense(M, seed, 65, complex_=(case['mask'] == 'complex'))
+    fwd = R.call(propagation.to_fpm_and_back, a.copy(), dx=dx, efl=efl, wavelength=wvl, fpm=fpm.copy(), fpm_dx=fdx, shift=shift, return_more=True,
+                 sig=sig + 'forward:exception', hygiene=False)
+    c1 = R.call(propagation.to_fpm_and_back, a.copy(), dx=dx, efl=efl, wavelength=wvl, fpm=dm.copy(), fpm_dx=fdx, shift=shift, sig=sig + 'forward:exception', hygiene=False)
+    if fwd is not FAILED and c1 is not FAILED:
+        try:
+            A = np.asarray(fwd[1])
+            c1 = np.asarray(c1)
+            okm = isinstance(fwd, tuple) and len(fwd) == 3 and A.shape == tuple(M) and c1.shape == tuple(n)
+            lhs, rhs = (rdot(g, c1), rdot(Bbar * np.conj(A), dm)) if okm else (0.0, 0.0)
+            sc = gn * max(float(np.linalg.norm(c1)), float(np.linalg.norm(dm)) * float(np.max(np.abs(A)))) if okm else 0.0
+        except Exception as e:   # noqa
+            R.violation(sig + 'forward', f'{what}: uncomparable forward return_more: {type(e).__name__}: {e}')
+            okm = None
+        if okm:
+            R.expect(abs(lhs - rhs) <= K_TOL * eps * max(1.0, sc), sig + 'mask-gradient:' + feats,
+                     f'{what}: mask gradient Ebbar * conj(field at the mask): <cbar, to_fpm_and_back(a, fpm=dm)> = {lhs:.12g} but <mbar, dm> = {rhs:.12g}')
+        elif okm is False:
+            R.violation(sig + 'forward', f'{what}: forward return_more is not (pupil field, field at mask {tuple(M)}, field after mask)')
+    # (iv)
+    wm = R.call(lambda gg, m: tuple(w.data for w in Wavefront(gg, wvl, dx, 'pupil').to_fpm_and_back_backprop(efl, m, fdx, method='mdft', shift=shift, return_more=True)),
+                g.copy(), fpm.copy(), sig='Wavefront.' + sig + 'exception')
+    if wm is not FAILED:
+        okw = isinstance(wm, tuple) and len(wm) == 3
+        R.expect(okw, 'Wavefront.' + sig + 'output', f'Wavefront.{what}: return_more=True does not return three Wavefronts')
+        if okw:
+            for i, nm in enumerate(('first', 'second', 'third')):
+                ref = np.asarray(more[i])
+                R.expect_close(wm[i], ref, K_TOL * eps * max(1.0, float(np.max(np.abs(ref))) if ref.size else 1.0), 'Wavefront.' + sig + nm,
+                               f'Wavefront.{what}: {nm} return of the method differs from the {nm} return of the function')
+    # (v)
+    if case.get('full'):
+        bB = lambda y: propagation.to_fpm_and_back_backprop(y, dx=dx, wavelength=wvl, efl=efl, fpm=fpm.copy(), fpm_dx=fdx, method='mdft', shift=shift, return_more=True)[1]   # noqa
+        bA = lambda y: propagation.to_fpm_and_back_backprop(y, dx=dx, wavelength=wvl, efl=efl, fpm=fpm.copy(), fpm_dx=fdx, method='mdft', shift=shift, return_more=True)[2]   # noqa
+        adjoint_check(R, U, bB, M, n, seed, 67, sig + 'Ebbar:' + feats, what + ' [second return / return trip]', dense_too=False)
+        adjoint_check(R, lambda Af: U(Af * fpm), bA, M, n, seed, 69, sig + 'intermediate:' + feats, what + ' [third return / mask and return trip]', dense_too=False)
 
 
 def run_babinet(case, seed, R):
@@ -704,7 +790,8 @@ def units(tier, seed):
                 for sh in ([0, 0], [1, 0], [0, -1.5]) for (wvl, efl, dxi) in ((0.5, 100.0, 0.1), (1.0, 37.5, 0.25))
                 if not quick or (wvl == 0.5) == (q != 2.0)]
     # --- fpm / babinet
-    fpm_cases = [{'n': n, 'M': M, 'dxo_rel': q, 'shift': sh, 'mask': mk, 'wvl': 0.5, 'efl': 100.0, 'dxi': 0.1}
+    # 'full': the auxiliary (return_more) returns of the companion on the full bases as well (quick: on the parity-complete sub-lattice of small shapes)
+    fpm_cases = [{'n': n, 'M': M, 'dxo_rel': q, 'shift': sh, 'mask': mk, 'wvl': 0.5, 'efl': 100.0, 'dxi': 0.1, 'full': (not quick) or max(n + M) <= 3}
                  for n in pup for M in foc for q in (2.0, 1.37) for sh in ([0, 0], [1, 0], [0.5, -1.5]) for mk in ('real', 'complex')]
     bab_cases = [{'n': n, 'M': M, 'dxo_rel': q, 'mask': mk, 'lyot': ly, 'wvl': 1.0, 'efl': 37.5, 'dxi': 0.25}
                  for n in pup for M in foc for q in (2.0, 1.37) for mk in ('real', 'complex') for ly in ('none', 'real', 'complex')]
@@ -775,7 +862,13 @@ def units(tier, seed):
                   + ': focus_fixed_sampling / _backprop (function and Wavefront method), unfocus_fixed_sampling / _backprop, method mdft; method czt must raise the documented ValueError (or be the same adjoint); ' + orc, reset=rs),
         ScopeUnit('lin_fpm', fpm_cases, run_fpm,
                   f'{shapes_txt} x 2 focal samplings x shift {{0, (1,0), (0.5,-1.5)}} focal samples x mask in {{real, complex}} (seeded dense generic values): '
-                  'to_fpm_and_back / to_fpm_and_back_backprop, function and Wavefront method, return_more consistency; ' + orc, reset=rs),
+                  'to_fpm_and_back / to_fpm_and_back_backprop, function and Wavefront method; ' + orc +
+                  ' ; RETURN FORMS: return_more in {False, True} -- with return_more=True the companion returns (abar, Bbar, Abar) mirroring the forward\'s (c, A, B) '
+                  '[A = F(a), B = A*m, c = U(B)] and EVERY element is judged as the gradient w.r.t. its forward quantity, in every configuration: first == the plain return; '
+                  'second: <cbar, U(dB)> = <Bbar, dB> for a seeded dense pair (U = the forward\'s return trip); third == conj(m) * second on every sample (exact adjoint of the diagonal step); '
+                  'mask gradient Bbar*conj(A) with A from the forward\'s own return_more against the forward, which is linear in the mask: <cbar, to_fpm_and_back(a, fpm=dm)> = <Bbar conj(A), dm>; '
+                  'the Wavefront method returns the same three arrays; and, ' + ('on the sub-lattice of shapes <= 3 (all 16 pupil/mask shape pairs x sampling x shift x mask kind)' if quick else 'in every configuration')
+                  + ', the operators cbar -> Bbar and cbar -> Abar read off the full basis against the operators of U and U(. * m) read off the full basis, entry-wise', reset=rs),
         ScopeUnit('lin_babinet', bab_cases, run_babinet,
                   f'{shapes_txt} x 2 focal samplings x mask in {{real, complex}} x Lyot stop in {{None, real, complex}}: Wavefront.babinet / babinet_backprop; ' + orc, reset=rs),
         ScopeUnit('lin_modes', mode_cases, run_modes,
